@@ -138,7 +138,7 @@ Proof. unfold FL, upd_send, with_streams. cbn [c_streams]. intros V H. apply For
 
 Lemma fl_step c op : FL c -> FL (snd (fstep c op)).
 Proof.
-  intros V. destruct op as [sid d f|sid code|sid|v|sid v|uni v|md bl br un sb su| |sid ms|sid|sid k a b f|sid k|sid|sid|sid|sid k|pm md bl br un sb su];
+  intros V. destruct op as [sid d f|sid code|sid|v|sid v|uni v|md bl br un sb su| |sid ms|sid|sid k a b f|sid k|sid|sid|sid|sid k|buni|pm md bl br un sb su];
     cbn [fstep].
   - destruct (for_send c sid) as [[c1 t]|] eqn:E; [|exact V]. destruct (for_send_FL _ _ _ _ V E) as (V1 & F1).
     pose proof (flag_write (t_send t) d f F1) as W. destruct (write (t_send t) d f) as [o s']. cbn [snd] in *. apply upd_send_FL; assumption.
@@ -181,6 +181,7 @@ Proof.
     unfold FL, with_streams. cbn [c_streams]. apply Forall_upd_any; [exact V|intros x Hx; exact Hx].
   - destruct (find_strm sid (c_streams c)) as [t|]; [|exact V]. cbn [snd]. destruct k; [exact V|].
     unfold FL, with_streams. cbn [c_streams]. apply Forall_upd_any; [exact V|intros x Hx; exact Hx].
+  - exact V.
   - destruct (store_limits_keep (match pm with PAccepted => true | _ => false end) c
                 (orz md 0) (orz bl 0) (orz br 0) (orz un 0) (orz sb 0) (orz su 0)) as (_ & _ & K & _).
     unfold FL in *. destruct pm; cbn [snd reblock c_streams]; rewrite K; try exact V.
@@ -383,4 +384,217 @@ Proof.
     vm_compute. repeat constructor.
   - split; [eexists; vm_compute; repeat split|]. split; [vm_compute; reflexivity|].
     split; [eexists; split; [vm_compute; reflexivity|split; vm_compute; reflexivity]|vm_compute; reflexivity].
+Qed.
+
+(* ================= I. STREAMS_BLOCKED =================
+   aioquic sends no DATA_BLOCKED and no STREAM_DATA_BLOCKED frame; STREAMS_BLOCKED is written by _write_application
+   (once the handshake is complete and _streams_blocked_pending is set) for each kind whose blocked list is not
+   empty, with limit = the current _remote_max_streams_*.  The frame is right -- some locally opened stream of that
+   kind is held back and its index is at or above the limit carried -- in every state in which _unblock_streams has run
+   since max_streams last changed ([settled]): that is the case from handshake completion on, because afterwards
+   only MAX_STREAMS changes the limit and its handler calls _unblock_streams. *)
+Definition blk_of (c : conn) (uni : bool) : list Z := if uni then c_blk_uni c else c_blk_bidi c.
+Definition ms_of (c : conn) (uni : bool) : Z := if uni then c_ms_uni c else c_ms_bidi c.
+Definition head_blocked (c : conn) (uni : bool) : Prop :=
+  match blk_of c uni with sid :: _ => ms_of c uni <= sid / 4 | [] => True end.
+Definition settled (c : conn) : Prop := head_blocked c false /\ head_blocked c true.
+Definition params_op (op : fop) : bool :=
+  match op with OParams _ _ _ _ _ _ | OParamsP _ _ _ _ _ _ _ => true | _ => false end.
+
+Lemma unblock_loop_head msd maxs blk : forall l,
+  match fst (unblock_loop msd maxs blk l) with sid :: _ => maxs <= sid / 4 | [] => True end.
+Proof.
+  induction blk as [|sid rest IH]; intros l; cbn [unblock_loop]; [exact I|].
+  destruct (sid / 4 <? maxs) eqn:E; [apply IH|]. cbn [fst]. lia.
+Qed.
+
+Lemma unblock_head c uni : head_blocked (unblock c uni) uni.
+Proof.
+  unfold head_blocked, unblock, blk_of, ms_of. destruct uni.
+  - pose proof (unblock_loop_head (c_msd_uni c) (c_ms_uni c) (c_blk_uni c) (c_streams c)) as H.
+    destruct (unblock_loop (c_msd_uni c) (c_ms_uni c) (c_blk_uni c) (c_streams c)) as [blk l]. exact H.
+  - pose proof (unblock_loop_head (c_msd_br c) (c_ms_bidi c) (c_blk_bidi c) (c_streams c)) as H.
+    destruct (unblock_loop (c_msd_br c) (c_ms_bidi c) (c_blk_bidi c) (c_streams c)) as [blk l]. exact H.
+Qed.
+
+Lemma unblock_other c uni : blk_of (unblock c uni) (negb uni) = blk_of c (negb uni) /\ ms_of (unblock c uni) (negb uni) = ms_of c (negb uni).
+Proof.
+  unfold unblock, blk_of, ms_of. destruct uni; cbn [negb].
+  - destruct (unblock_loop (c_msd_uni c) (c_ms_uni c) (c_blk_uni c) (c_streams c)) as [blk l]. split; reflexivity.
+  - destruct (unblock_loop (c_msd_br c) (c_ms_bidi c) (c_blk_bidi c) (c_streams c)) as [blk l]. split; reflexivity.
+Qed.
+
+Lemma head_blocked_other c uni : head_blocked c (negb uni) -> head_blocked (unblock c uni) (negb uni).
+Proof. unfold head_blocked. destruct (unblock_other c uni) as (A & B). rewrite A, B. auto. Qed.
+
+(* handshake completion settles both lists, whatever the state before *)
+Lemma settled_after_handshake_l c : settled (snd (fstep c OHandshakeDone)).
+Proof.
+  cbn [fstep snd]. split.
+  - apply (head_blocked_other (unblock c false) true). apply unblock_head.
+  - apply unblock_head.
+Qed.
+
+Lemma head_blocked_same c c' uni : blk_of c' uni = blk_of c uni -> ms_of c' uni = ms_of c uni -> head_blocked c uni -> head_blocked c' uni.
+Proof. unfold head_blocked. intros -> ->. auto. Qed.
+
+Lemma settled_same c c' : c_blk_bidi c' = c_blk_bidi c -> c_blk_uni c' = c_blk_uni c -> c_ms_bidi c' = c_ms_bidi c -> c_ms_uni c' = c_ms_uni c ->
+  settled c -> settled c'.
+Proof.
+  intros E1 E2 E3 E4 (A & B). split; [apply (head_blocked_same c c' false)|apply (head_blocked_same c c' true)]; assumption.
+Qed.
+
+Lemma for_send_settled c sid c1 t : settled c -> for_send c sid = Some (c1, t) -> settled c1.
+Proof.
+  intros S. unfold for_send. destruct (negb (can_send c sid)); [discriminate|].
+  destruct (find_strm sid (c_streams c)); [intros H; inversion H; subst; exact S|].
+  destruct (negb (Bool.eqb (sid_client sid) (c_client c))); [discriminate|].
+  intros H; inversion H; subst; clear H. destruct S as (A & B). unfold settled, head_blocked, blk_of, ms_of in *.
+  cbn [c_blk_bidi c_blk_uni c_ms_bidi c_ms_uni]. destruct (sid_uni sid); cbn [negb andb]; rewrite ?andb_false_r, ?andb_true_r.
+  - split; [exact A|]. destruct (sid / 4 >=? c_ms_uni c) eqn:E; [|exact B].
+    destruct (c_blk_uni c); cbn [app]; [lia|exact B].
+  - split; [|exact B]. destruct (sid / 4 >=? c_ms_bidi c) eqn:E; [|exact A].
+    destruct (c_blk_bidi c); cbn [app]; [lia|exact A].
+Qed.
+
+Lemma from_peer_settled c sid c1 t : settled c -> from_peer c sid = Some (c1, t) -> settled c1.
+Proof.
+  intros S. unfold from_peer. destruct (find_strm sid (c_streams c)); [intros H; inversion H; subst; exact S|].
+  destruct (Bool.eqb (sid_client sid) (c_client c)); [discriminate|]. intros H; inversion H; subst. exact S.
+Qed.
+
+(* every operation other than the processing of transport parameters keeps both lists settled *)
+Lemma settled_step c op : settled c -> params_op op = false -> settled (snd (fstep c op)).
+Proof.
+  intros S Hp. destruct op as [sid d f|sid code|sid|v|sid v|uni v|md bl br un sb su| |sid ms|sid|sid k a b f|sid k|sid|sid|sid|sid k|buni|pm md bl br un sb su];
+    cbn [fstep]; try discriminate.
+  - destruct (for_send c sid) as [[c1 t]|] eqn:E; [|exact S]. pose proof (for_send_settled _ _ _ _ S E) as S1.
+    destruct (write (t_send t) d f) as [o s']. cbn [snd]. revert S1. apply settled_same; reflexivity.
+  - destruct (for_send c sid) as [[c1 t]|] eqn:E; [|exact S]. pose proof (for_send_settled _ _ _ _ S E) as S1.
+    destruct (reset (t_send t) code) as [o s']. cbn [snd]. revert S1. apply settled_same; reflexivity.
+  - destruct (negb (can_send c sid)); [exact S|].
+    destruct (from_peer c sid) as [[c1 t]|] eqn:E; [|exact S]. pose proof (from_peer_settled _ _ _ _ S E) as S1.
+    destruct (reset (t_send t) 0) as [o s']. cbn [snd]. revert S1. apply settled_same; reflexivity.
+  - cbn [snd]. destruct (v >? c_max_data c); [|exact S]. revert S. apply settled_same; reflexivity.
+  - destruct (negb (can_send c sid)); [exact S|].
+    destruct (from_peer c sid) as [[c1 t]|] eqn:E; [|exact S]. pose proof (from_peer_settled _ _ _ _ S E) as S1. cbn [snd].
+    destruct (v >? t_msdr t); [|exact S1]. revert S1. apply settled_same; reflexivity.
+  - destruct (v >? 1152921504606846976); [exact S|]. destruct S as (A & B). destruct uni.
+    + destruct (v >? c_ms_uni c); [|split; assumption]. cbn [snd]. split; [|apply unblock_head].
+      apply (head_blocked_other _ true). revert A. apply head_blocked_same; reflexivity.
+    + destruct (v >? c_ms_bidi c); [|split; assumption]. cbn [snd]. split; [apply unblock_head|].
+      apply (head_blocked_other _ false). revert B. apply head_blocked_same; reflexivity.
+  - apply settled_after_handshake_l.
+  - destruct (find_strm sid (c_streams c)) as [t|]; [|exact S].
+    destruct (s_reset_pending (t_send t) || t_blocked t || s_empty (t_send t)); [exact S|].
+    destruct (get_frame (t_send t) ms (Some (max_offset c t))) as [o s']. cbn [snd]. revert S. apply settled_same; reflexivity.
+  - destruct (find_strm sid (c_streams c)) as [t|]; [|exact S].
+    destruct (negb (s_reset_pending (t_send t)) || t_blocked t); [exact S|]. cbn [get_reset_frame snd]. revert S. apply settled_same; reflexivity.
+  - destruct (find_strm sid (c_streams c)) as [t|]; [|exact S].
+    destruct (on_data_delivery (t_send t) k a b f) as [o s']. cbn [snd]. revert S. apply settled_same; reflexivity.
+  - destruct (find_strm sid (c_streams c)) as [t|]; [|exact S].
+    destruct (on_reset_delivery (t_send t) k) as [o s']. cbn [snd]. revert S. apply settled_same; reflexivity.
+  - destruct (from_peer c sid) as [[c1 t]|] eqn:E; [|exact S]. exact (from_peer_settled _ _ _ _ S E).
+  - destruct (negb (can_receive c sid)); [exact S|]. destruct (find_strm sid (c_streams c)); [|exact S]. cbn [snd].
+    revert S. apply settled_same; reflexivity.
+  - destruct (find_strm sid (c_streams c)) as [t|]; [|exact S]. destruct (negb (t_stop t) || t_blocked t); [exact S|]. cbn [snd].
+    revert S. apply settled_same; reflexivity.
+  - destruct (find_strm sid (c_streams c)) as [t|]; [|exact S]. cbn [snd]. destruct k; [exact S|].
+    revert S. apply settled_same; reflexivity.
+  - exact S.
+Qed.
+
+(* a STREAMS_BLOCKED frame is written only for a kind that has a held-back stream; it carries the current limit; in a
+   settled reachable state the first stream of the list is locally opened, of that kind, held back, and its index is
+   at or above the limit carried: the sender really is blocked at that limit *)
+Lemma streams_blocked_frame_correct_l c gm uni l c' :
+  freach c gm -> settled c -> fstep c (OBlockedFrame uni) = (FBlocked (Some l), c') ->
+  c' = c /\ l = ms_of c uni /\
+  exists sid t, In sid (blk_of c uni) /\ find_strm sid (c_streams c) = Some t /\ t_blocked t = true /\
+    is_local c sid = true /\ sid_uni sid = uni /\ l <= sid / 4.
+Proof.
+  intros R S H. pose proof (freach_inv _ _ R) as V. cbn [fstep] in H.
+  assert (B : BL c (c_streams c) uni (blk_of c uni)) by (unfold blk_of; destruct uni; [exact (i_blk_uni _ _ V)|exact (i_blk_bidi _ _ V)]).
+  assert (Hh : head_blocked c uni) by (destruct S; destruct uni; assumption).
+  unfold head_blocked in Hh. fold (blk_of c uni) in H. fold (ms_of c uni) in H.
+  destruct (blk_of c uni) as [|sid rest] eqn:Eb; [discriminate|]. inversion H; subst. split; [reflexivity|]. split; [reflexivity|].
+  destruct B as (_ & HB). destruct (HB sid (or_introl eq_refl)) as (Hu & Hl & t & Ft & Bt).
+  exists sid, t. repeat split; try assumption. left; reflexivity.
+Qed.
+
+(* and no frame is written for a kind whose list is empty *)
+Lemma streams_blocked_frame_none c uni : blk_of c uni = [] -> fst (fstep c (OBlockedFrame uni)) = FBlocked None.
+Proof. unfold blk_of. cbn [fstep fst]. destruct uni; intros ->; reflexivity. Qed.
+
+(* non-vacuity: max_streams_bidi 1; streams 4 and 8 are held back: STREAMS_BLOCKED carries 1; after MAX_STREAMS 2 stream 4
+   is released and the frame carries 2 (stream 8 is still held back); after MAX_STREAMS 3 nothing is written *)
+Definition ops_sb : list fop :=
+  [OParams (Some 1000) (Some 100) (Some 100) (Some 100) (Some 1) (Some 1); OHandshakeDone; OSend 4 [1] false; OSend 8 [1] false].
+
+Lemma streams_blocked_witness_l :
+  let c := frun (conn_init true) ops_sb in
+  guards (conn_init true) ops_sb /\ settled c /\
+  fst (fstep c (OBlockedFrame false)) = FBlocked (Some 1) /\ fst (fstep c (OBlockedFrame true)) = FBlocked None /\
+  fst (fstep (snd (fstep c (OMaxStreams false 2))) (OBlockedFrame false)) = FBlocked (Some 2) /\
+  fst (fstep (snd (fstep c (OMaxStreams false 3))) (OBlockedFrame false)) = FBlocked None.
+Proof.
+  cbv zeta. split; [cbv; repeat split; discriminate|]. split; [vm_compute; split; [discriminate|exact I]|].
+  vm_compute. auto.
+Qed.
+
+(* ================= J. the order in which the stream loop serves the streams =================
+   _write_application iterates _streams_queue (streams in creation order at first).  After the loop the queue becomes
+       [s for s in queue if not (s in discarded or s in sent)] + list(sent)
+   where `sent` is the SET of streams whose STREAM frame consumed connection credit in this packet (`used > 0`: a frame
+   that only re-sends lost bytes, or a bare FIN, does not put the stream into `sent`) and `discarded` the finished
+   streams; new streams are appended at the back.  [requeue q gone served]: [gone] = discarded + sent, [served] = the
+   sent streams in whatever order the set yields them.  [ahead s q] = the streams the loop visits before s. *)
+Definition memz (x : Z) (l : list Z) : bool := existsb (Z.eqb x) l.
+Definition requeue (q gone served : list Z) : list Z := filter (fun x => negb (memz x gone)) q ++ served.
+Fixpoint ahead (s : Z) (q : list Z) : list Z :=
+  match q with [] => [] | x :: r => if x =? s then [] else x :: ahead s r end.
+
+Lemma ahead_app s q r : In s q -> ahead s (q ++ r) = ahead s q.
+Proof.
+  induction q as [|x q IH]; [intros []|]. intros Hin. cbn [app ahead]. destruct (x =? s) eqn:E; [reflexivity|].
+  destruct Hin as [->|Hin]; [lia|]. rewrite (IH Hin). reflexivity.
+Qed.
+
+Lemma ahead_requeue q gone served s : In s q -> memz s gone = false ->
+  ahead s (requeue q gone served) = filter (fun x => negb (memz x gone)) (ahead s q).
+Proof.
+  unfold requeue. intros Hin Hs. induction q as [|x q IH]; [destruct Hin|].
+  cbn [filter ahead]. destruct (x =? s) eqn:E.
+  - assert (x = s) by lia. subst x. rewrite Hs. cbn [negb app ahead]. rewrite E. reflexivity.
+  - destruct Hin as [->|Hin]; [lia|]. specialize (IH Hin).
+    cbn [filter]. destruct (memz x gone) eqn:Ex; cbn [negb].
+    + exact IH.
+    + cbn [app ahead]. rewrite E, IH. reflexivity.
+Qed.
+
+Lemma filter_length_le {A} (p : A -> bool) l : (length (filter p l) <= length l)%nat.
+Proof. induction l as [|x l IH]; cbn [filter length]; [auto|]. destruct (p x); cbn [length]; lia. Qed.
+
+Lemma filter_length_lt {A} (p : A -> bool) l x : In x l -> p x = false -> (length (filter p l) < length l)%nat.
+Proof.
+  induction l as [|y l IH]; [intros []|]. intros [->|Hin] Hp; cbn [filter length].
+  - rewrite Hp. pose proof (filter_length_le p l). lia.
+  - specialize (IH Hin Hp). destruct (p y); cbn [length]; lia.
+Qed.
+
+(* a stream s that stays in the queue (it was neither served with new data nor discarded) is never overtaken: the
+   streams visited before it after the requeueing are exactly those visited before it earlier, minus the ones that
+   were served or discarded; their number does not grow, and it shrinks whenever one of them was served; a stream
+   appended to the queue does not get ahead of s *)
+Lemma queue_rotation_fair_l q gone served s : In s q -> memz s gone = false ->
+  ahead s (requeue q gone served) = filter (fun x => negb (memz x gone)) (ahead s q) /\
+  (length (ahead s (requeue q gone served)) <= length (ahead s q))%nat /\
+  (forall x, In x (ahead s q) -> memz x gone = true ->
+     (length (ahead s (requeue q gone served)) < length (ahead s q))%nat) /\
+  (forall n, ahead s (q ++ [n]) = ahead s q).
+Proof.
+  intros Hin Hs. pose proof (ahead_requeue q gone served s Hin Hs) as E. rewrite E.
+  split; [reflexivity|]. split; [apply filter_length_le|]. split.
+  - intros x Hx Hg. apply (filter_length_lt _ _ x Hx). rewrite Hg. reflexivity.
+  - intros n. apply ahead_app. exact Hin.
 Qed.
